@@ -3,9 +3,12 @@
 //! `Tai64::now()` reads the wall clock; this binary interposes libc's `clock_gettime` so that
 //! CLOCK_REALTIME can be set by the op sequence (all other clocks pass through to the kernel).
 //! input = ((op ...))
-//!   op = (0 exp key sig_ok (signer tamper))            delegation of delegate key `key` for `exp`, signed by
-//!                                                      protocol key `signer` (tamper=1: signature over other content)
-//!      | (1 exp ((tx variant payload)...) (ok_keys...) (signer tamper))   batch signed by delegate key `signer`
+//!   op = (0 exp key sig_ok (signer class))             delegation of delegate key `key` for `exp`, signed by
+//!                                                      protocol key `signer`
+//!      | (1 exp ((tx variant payload)...) (ok_keys...) (signer class))    batch signed by delegate key `signer`
+//!   signature class: 0 = valid signature of `signer`; 1 = valid signature over OTHER content;
+//!      2 = all-zero signature bytes; >= 3 = pseudo-random signature bytes derived from the class number
+//!      (for delegations only those for which secp256k1 recovery FAILS are generated: "unrecoverable")
 //!      | (2 t)  wall clock := t (unix seconds)   | (3 k)  current protocol key := k
 //!   sig_ok / ok_keys are the results of the real signature checks (computed by `gen`, recomputed by `run`)
 //! output = per op: (oracle report ((tx kind payload)...) ((exp key)...))
@@ -114,12 +117,34 @@ mod anyhow_result {
     pub type Result<T> = core::result::Result<T, anyhow::Error>;
 }
 
+/// Signature bytes of the malformed classes: 2 = all zero, >= 3 = pseudo-random from the class number.
+fn junk_bytes(class: u64) -> [u8; 64] {
+    let mut b = [0u8; 64];
+    if class >= 3 {
+        let mut r = Rng::new(0xC44_0000 + class);
+        for chunk in b.chunks_mut(8) {
+            chunk.copy_from_slice(&r.next().to_le_bytes());
+        }
+    }
+    b
+}
+
+/// Does secp256k1 recovery fail for these signature bytes (for any message we use)?
+fn unrecoverable(class: u64) -> bool {
+    let sig = Signature::from_bytes(junk_bytes(class));
+    let entity = DelegatePreConfirmationKey {
+        public_key: deleg_key(0).verifying_key(),
+        expiration: Tai64::from_unix(20),
+    };
+    sig.recover(&Message::new(postcard::to_allocvec(&entity).unwrap())).is_err()
+}
+
 /// The sealed delegation and the result of the real check against `current`.
 fn delegation(
     exp: u64,
     key: usize,
     signer: usize,
-    tamper: bool,
+    class: u64,
     current: usize,
 ) -> (P2PPreConfirmationMessage, bool) {
     let entity = DelegatePreConfirmationKey {
@@ -128,12 +153,16 @@ fn delegation(
     };
     let signed = DelegatePreConfirmationKey {
         public_key: entity.public_key,
-        expiration: Tai64::from_unix(exp as i64 + if tamper { 1 } else { 0 }),
+        expiration: Tai64::from_unix(exp as i64 + if class == 1 { 1 } else { 0 }),
     };
-    let signature = Signature::sign(
-        &proto_key(signer),
-        &Message::new(postcard::to_allocvec(&signed).unwrap()),
-    );
+    let signature = if class >= 2 {
+        Signature::from_bytes(junk_bytes(class))
+    } else {
+        Signature::sign(
+            &proto_key(signer),
+            &Message::new(postcard::to_allocvec(&signed).unwrap()),
+        )
+    };
     let ok = signature
         .recover(&Message::new(postcard::to_allocvec(&entity).unwrap()))
         .is_ok_and(|pk| Input::owner(&pk) == proto_address(current));
@@ -162,16 +191,19 @@ fn preconf_entry(tx: u64, variant: u64, payload: u64) -> Preconfirmation {
 }
 
 /// The sealed batch and the delegate keys under which the real ed25519 check accepts it.
-fn batch(exp: u64, entries: &[(u64, u64, u64)], signer: usize, tamper: bool) -> (P2PPreConfirmationMessage, Vec<u64>) {
+fn batch(exp: u64, entries: &[(u64, u64, u64)], signer: usize, class: u64) -> (P2PPreConfirmationMessage, Vec<u64>) {
     let preconfirmations: Vec<Preconfirmation> =
         entries.iter().map(|(tx, v, p)| preconf_entry(*tx, *v, *p)).collect();
     let entity = Preconfirmations { expiration: Tai64::from_unix(exp as i64), preconfirmations: preconfirmations.clone() };
     let signed = Preconfirmations {
-        expiration: Tai64::from_unix(exp as i64 + if tamper { 1 } else { 0 }),
+        expiration: Tai64::from_unix(exp as i64 + if class == 1 { 1 } else { 0 }),
         preconfirmations,
     };
-    let sig = deleg_key(signer).sign(&postcard::to_allocvec(&signed).unwrap());
-    let signature = Bytes64::new(sig.to_bytes());
+    let signature = if class >= 2 {
+        Bytes64::new(junk_bytes(class))
+    } else {
+        Bytes64::new(deleg_key(signer).sign(&postcard::to_allocvec(&signed).unwrap()).to_bytes())
+    };
     let bytes = postcard::to_allocvec(&entity).unwrap();
     let ok_keys = (0..NDELEG)
         .filter(|k| {
@@ -223,7 +255,7 @@ pub fn run(input: &T) -> T {
                             o[1].as_u64(),
                             o[2].as_usize(),
                             aux[0].as_usize(),
-                            aux[1].as_bool(),
+                            aux[1].as_u64(),
                             current.load(Ordering::SeqCst),
                         );
                         oracle = T::l(vec![T::b(ok)]);
@@ -232,7 +264,7 @@ pub fn run(input: &T) -> T {
                     1 => {
                         let aux = o[4].as_l();
                         let (msg, ok_keys) =
-                            batch(o[1].as_u64(), &entries_of(&o[2]), aux[0].as_usize(), aux[1].as_bool());
+                            batch(o[1].as_u64(), &entries_of(&o[2]), aux[0].as_usize(), aux[1].as_u64());
                         oracle = T::list_n(&ok_keys);
                         driver.new_preconfirmations_from_p2p(msg, message_id.clone(), PeerId::from(vec![7u8]));
                     }
@@ -287,19 +319,19 @@ pub fn run(input: &T) -> T {
 }
 
 // ---------------------------------------------------------------------------------------------
-fn op_delegate(exp: u64, key: usize, signer: usize, tamper: bool, current: usize) -> T {
-    let (_, ok) = delegation(exp, key, signer, tamper, current);
-    T::l(vec![T::i(0), T::n(exp), T::n(key as u64), T::b(ok), T::l(vec![T::n(signer as u64), T::b(tamper)])])
+fn op_delegate(exp: u64, key: usize, signer: usize, class: u64, current: usize) -> T {
+    let (_, ok) = delegation(exp, key, signer, class, current);
+    T::l(vec![T::i(0), T::n(exp), T::n(key as u64), T::b(ok), T::l(vec![T::n(signer as u64), T::n(class)])])
 }
 
-fn op_batch(exp: u64, entries: &[(u64, u64, u64)], signer: usize, tamper: bool) -> T {
-    let (_, ok_keys) = batch(exp, entries, signer, tamper);
+fn op_batch(exp: u64, entries: &[(u64, u64, u64)], signer: usize, class: u64) -> T {
+    let (_, ok_keys) = batch(exp, entries, signer, class);
     T::l(vec![
         T::i(1),
         T::n(exp),
         T::l(entries.iter().map(|(a, b, c)| T::l(vec![T::n(*a), T::n(*b), T::n(*c)])).collect()),
         T::list_n(&ok_keys),
-        T::l(vec![T::n(signer as u64), T::b(tamper)]),
+        T::l(vec![T::n(signer as u64), T::n(class)]),
     ])
 }
 
@@ -320,11 +352,11 @@ pub fn gen(rng: &mut Rng, n: u64, tier: &str) -> Vec<T> {
             op_clock(19),
             op_clock(20),
             op_clock(21),
-            op_delegate(20, 0, 0, false, 0),
-            op_delegate(20, 1, 0, false, 0),
-            op_delegate(30, 2, 1, false, 0), // signed by a key that is not the current protocol key
-            op_batch(20, &[(0, 0, i)], 0, false),
-            op_batch(20, &[(1, 1, i)], 1, false),
+            op_delegate(20, 0, 0, 0, 0),
+            op_delegate(20, 1, 0, 0, 0),
+            op_delegate(30, 2, 1, 0, 0), // signed by a key that is not the current protocol key
+            op_batch(20, &[(0, 0, i)], 0, 0),
+            op_batch(20, &[(1, 1, i)], 1, 0),
         ]
     };
     let maxlen = if thorough { 5 } else { 4 };
@@ -347,6 +379,38 @@ pub fn gen(rng: &mut Rng, n: u64, tier: &str) -> Vec<T> {
             }
         }
     }
+    // malformed signatures: unrecoverable protocol signature on a delegation (all-zero bytes, random bytes
+    // for which recovery fails), then a correctly signed batch of that delegate; and batches whose delegate
+    // signature is all-zero / random bytes under a valid delegation
+    let junk: Vec<u64> = std::iter::once(2u64).chain((3u64..400).filter(|c| unrecoverable(*c)).take(5)).collect();
+    for (n, class) in junk.iter().enumerate() {
+        assert!(unrecoverable(*class));
+        let p = 1000 + 10 * n as u64;
+        for clock in [19u64, 20] {
+            for key in 0..NDELEG {
+                cases.push(T::l(vec![T::l(vec![
+                    op_clock(clock),
+                    op_delegate(20, key, 0, *class, 0),
+                    op_batch(20, &[(0, 0, p)], key, 0),
+                ])]));
+            }
+        }
+        cases.push(T::l(vec![T::l(vec![
+            op_clock(10),
+            op_delegate(20, 0, 0, 0, 0),
+            op_delegate(20, 1, 0, *class, 0), // must not overwrite key 0
+            op_batch(20, &[(1, 0, p + 1)], 1, 0),
+            op_batch(20, &[(1, 0, p + 2)], 0, 0),
+        ])]));
+    }
+    for class in [2u64, 3, 4, 5] {
+        cases.push(T::l(vec![T::l(vec![
+            op_clock(10),
+            op_delegate(20, 0, 0, 0, 0),
+            op_batch(20, &[(2, 0, 2000 + class)], 0, class),
+            op_batch(20, &[(2, 1, 2100 + class)], 0, 0),
+        ])]));
+    }
     // random histories
     const EXPS: [u64; 3] = [10, 20, 30];
     const CLOCKS: [u64; 12] = [0, 5, 9, 10, 11, 19, 20, 21, 29, 30, 31, 40];
@@ -359,14 +423,23 @@ pub fn gen(rng: &mut Rng, n: u64, tier: &str) -> Vec<T> {
             match rng.below(20) {
                 0..=6 => {
                     let signer = if rng.chance(5, 6) { current } else { rng.below(NPROTO as u64) as usize };
-                    let tamper = rng.chance(1, 10);
-                    ops.push(op_delegate(*rng.pick(&EXPS), rng.below(NDELEG as u64) as usize, signer, tamper, current));
+                    let class = match rng.below(20) {
+                        0 | 1 => 1,
+                        2 | 3 => *rng.pick(&junk),
+                        _ => 0,
+                    };
+                    ops.push(op_delegate(*rng.pick(&EXPS), rng.below(NDELEG as u64) as usize, signer, class, current));
                 }
                 7..=13 => {
                     let cnt = rng.range(1, 3);
                     let entries: Vec<(u64, u64, u64)> =
                         (0..cnt).map(|j| (rng.below(4), rng.below(3), 10 * (i + 1) + j)).collect();
-                    ops.push(op_batch(*rng.pick(&EXPS), &entries, rng.below(NDELEG as u64) as usize, rng.chance(1, 10)));
+                    let class = match rng.below(20) {
+                        0 | 1 => 1,
+                        2 => rng.range(2, 9),
+                        _ => 0,
+                    };
+                    ops.push(op_batch(*rng.pick(&EXPS), &entries, rng.below(NDELEG as u64) as usize, class));
                 }
                 14..=17 => {
                     // mostly forwards, sometimes back
